@@ -341,7 +341,7 @@ def gen_case(rng, pid, tier):
         traits = rng.sample(TR, rng.choice([0, 1, 1, 2, 3]))
         if rng.random() < 0.03 and traits:
             traits.append(traits[0])
-        alloc = 't/r%d' % i
+        alloc = ('t/r%d' if i % 3 else 'corp:eng/r%d') % i          # (tenants may be nested)
         q = sized(cell, part, alloc, traits, 'small' if rng.random() < 0.9 else 'random')
         r = {'alloc': alloc, 'cell': cell, 'partition': part, 'traits': traits, 'rank': rng.choice([100, 50, 0])}
         r.update(q)
@@ -407,6 +407,12 @@ def gen_case(rng, pid, tier):
             del rsrc['traits']
         if rng.random() < 0.03 and rsrc.get('traits'):
             rsrc['traits'] = rsrc['traits'] + [rsrc['traits'][0]]
+        r2 = random.Random(repr(rng.getstate()[1][:4]))
+        if kind == 'update' and (cell, alloc) in store and r2.random() < 0.08:
+            # (side stream) as many traits as stored, one of them repeated: every new value is among the stored ones
+            st_tr = [t for t in store[(cell, alloc)].get('traits', []) if isinstance(t, str)]
+            if len(set(st_tr)) >= 2:
+                rsrc['traits'] = [r2.choice(st_tr)] * len(st_tr)
         if rng.random() < 0.3:
             rsrc['rank'] = rng.randint(0, 100)
         if rng.random() < 0.1:
@@ -479,7 +485,38 @@ class _FakeCellAlloc:
         obj = copy.deepcopy(self.store[key])
         obj['_id'] = '%s/%s' % (key[1], key[0])
         obj['assignments'] = []
-        return obj
+        got = self._via_ldap(key, obj)
+        return obj if got is None else got
+
+    class _StubAdmin(object):
+        root_ou = 'ou=treadmill,dc=x'
+
+        def dn(self, parts):
+            return ','.join(parts + [self.root_ou])
+
+    def _via_ldap(self, key, obj):
+        """What the directory layer hands to the API for this reservation: the real `CellAllocation.to_entry` /
+        `_remove_empty` / `from_entry` of treadmill.admin._ldap, with the id derived from the entry's dn by the
+        real `dn()` / `_dn2cellalloc_id` (tenants may be nested: `corp:eng/r1`).  A record the directory cannot
+        hold (the malformed stream's non-string fields) is handed over as it is."""
+        from treadmill.admin import _ldap
+        try:
+            adm = _ldap.CellAllocation(self._StubAdmin())
+            raw = {k_: v_ for k_, v_ in obj.items() if k_ not in ('_id', 'assignments')}
+            if not all(isinstance(t_, str) for t_ in raw.get('traits', [])) or \
+                    len(set(raw.get('traits', []))) != len(raw.get('traits', [])):
+                return None
+            entry = _ldap._remove_empty(adm.to_entry(raw))           # pylint: disable=protected-access
+            back = adm.from_entry(entry, adm.dn([key[0], key[1]]))
+        except Exception:       # pylint: disable=broad-except
+            return None
+        # a field the codec cannot hold as written (an int where the schema says str ...) keeps the written value
+        for k_, v_ in obj.items():
+            if k_ in ('_id', 'assignments'):
+                continue
+            if k_ not in back or (isinstance(v_, (int, float)) and not isinstance(v_, bool) and back[k_] != v_):
+                return None
+        return back
 
     def list(self, attrs):
         if self.fail_list:
@@ -527,7 +564,55 @@ class _FakeCellAlloc:
         key = (ident[0], ident[1])
         if key not in self.store:
             raise self.exc.NoSuchObjectResult(ident)
-        self.store[key] = self._norm(ident[0], attrs, self.store[key])
+        new = self._norm(ident[0], attrs, self.store[key])
+        real = self._update_via_ldap(key, attrs)
+        self.store[key] = new if real is None else real
+
+    def _update_via_ldap(self, key, attrs):
+        """The update as the directory layer performs it: the real `Admin.update` (its `_diff_entries` /
+        `_diff_attribute_values`) over the stored entry, decoded by the real `from_entry`.  `None`: the
+        record or the request is not something the codec can hold (malformed stream)."""
+        from treadmill.admin import _ldap
+        import ldap3
+        try:
+            old = self.store[key]
+            if not all(isinstance(t_, str) for t_ in list(old.get('traits', [])) + list(attrs.get('traits') or [])):
+                return None
+            adm = _ldap.CellAllocation(self._StubAdmin())
+            stored = _ldap._remove_empty(adm.to_entry(copy.deepcopy(old)))      # pylint: disable=protected-access
+
+            class _Dir(_ldap.Admin):
+                def get(self, dn, query, attrs, paged_search=True, dirty=False):      # pylint: disable=arguments-differ
+                    want = set(attrs)
+                    return {k_: list(v_) for k_, v_ in stored.items() if k_.split(';', 1)[0] in want}
+
+                def modify(self, dn, changes):
+                    for attr, mods in (changes or {}).items():
+                        for op_, vals in mods:
+                            if op_ == ldap3.MODIFY_REPLACE:
+                                stored[attr] = list(vals)
+                            elif op_ == ldap3.MODIFY_ADD:
+                                stored[attr] = list(stored.get(attr, [])) + list(vals)
+                            elif op_ == ldap3.MODIFY_DELETE:
+                                stored.pop(attr, None)
+            _Dir('ldap://x', 'dc=x').update('dn', adm.to_entry(copy.deepcopy(attrs)))
+            back = adm.from_entry(_ldap._remove_empty(stored))                  # pylint: disable=protected-access
+        except Exception:       # pylint: disable=broad-except
+            return None
+        back.pop('assignments', None)
+        back.pop('_id', None)
+        back.setdefault('cell', key[0])
+        back.setdefault('traits', [])
+        want = self._norm(key[0], attrs, self.store[key])
+        # (fields the codec spells differently - an int rank sent as a string ... - keep the harness' own result)
+        if set(back) != set(want):
+            return None
+        for k_ in want:
+            if k_ != 'traits' and back[k_] != want[k_] and str(back[k_]) != str(want[k_]):
+                return None
+        if sorted(back['traits']) == sorted(want['traits']):
+            back['traits'] = list(want['traits'])      # (a multi-valued attribute has no order: the request's)
+        return back
 
 
 class _FakePartition:
@@ -648,7 +733,12 @@ def rq_line(verb, rid, rsrc):
 
 
 def _oi(r, k):
-    return str(r[k]) if k in r else '~'
+    if k not in r:
+        return '~'
+    v = r[k]
+    if isinstance(v, float) and v == int(v):
+        v = int(v)          # (the directory hands max_utilization back as a float: 41 and 41.0 are one value)
+    return str(v)
 
 
 def dump_store(store):
